@@ -4,14 +4,15 @@ A check that exits non-zero or prints VIOLATION on such a change is a false alar
 behaviour-preserving after all - to be decided by replaying the reported case). Usage: refactest.py [dirs..] [--checks=C01,..]"""
 import json, os, subprocess, sys, time
 VERIF = os.path.dirname(os.path.dirname(os.path.abspath(__file__)))
+REPO = os.environ.get("KTMC_REPO", "/repo")  # an isolated copy when run through `vp run --with-repo`
 args = [a for a in sys.argv[1:] if not a.startswith("--")]
 extra = [a.split("=", 1)[1].split(",") for a in sys.argv[1:] if a.startswith("--checks=")]
 dirs = [os.path.abspath(a) for a in args] or sorted(os.path.join(VERIF, "refactored", d) for d in os.listdir(os.path.join(VERIF, "refactored")))
 ALL = ["C%02d" % i for i in range(1, 19)]
-assert subprocess.run(["git", "-C", "/repo", "status", "--porcelain"], stdout=subprocess.PIPE).stdout.strip() == b"", "/repo not clean"
+assert subprocess.run(["git", "-C", REPO, "status", "--porcelain"], stdout=subprocess.PIPE).stdout.strip() == b"", "/repo not clean"
 for sd in dirs:
     meta = json.load(open(os.path.join(sd, "meta.json")))
-    subprocess.run(["git", "-C", "/repo", "apply", os.path.join(sd, "patch.diff")], check=True)
+    subprocess.run(["git", "-C", REPO, "apply", os.path.join(sd, "patch.diff")], check=True)
     res, saved = {}, {}
     try:
         for p in (extra[0] if extra else ALL):
@@ -25,7 +26,7 @@ for sd in dirs:
             if r.returncode != 0:
                 print(os.path.basename(sd), p, "exit", r.returncode, (viol[1][:300] if len(viol) > 1 else out[-400:].strip()))
     finally:
-        subprocess.run(["git", "-C", "/repo", "checkout", "--", "."], check=True)
+        subprocess.run(["git", "-C", REPO, "checkout", "--", "."], check=True)
         for ev, data in saved.items():
             if data is None:
                 if os.path.exists(ev):
